@@ -430,6 +430,9 @@ func (w WS) Expect() (outs map[string]map[string]OutFile, bodies map[string]stri
 					fmt.Fprintf(&b, "f %s %s\n%s\n", p, x, of.Content)
 				}
 			}
+			if d.Bin != "" {
+				fmt.Fprintf(&b, "!! %s\n%s", dl, bodies[dl])
+			}
 		}
 		body := b.String()
 		bodies[l] = body
@@ -540,6 +543,10 @@ func (w WS) Command(t *Target) string {
 			}
 		}
 		b.WriteString("} | LC_ALL=C sort | while IFS= read -r p; do q=\"$GROG_WORKSPACE_ROOT/$p\"; if [ -L \"$q\" ]; then printf 'l %s -> %s\\n' \"$p\" \"$(readlink \"$q\")\"; elif [ -d \"$q\" ]; then printf 'd %s\\n' \"$p\"; else x=-; if [ -x \"$q\" ]; then x=x; fi; printf 'f %s %s\\n' \"$p\" \"$x\"; cat \"$q\"; printf '\\n'; fi; done\n")
+		if d.Bin != "" {
+			// run the dependency's tool through grog's $(bin <label>) script function: it prints the dependency's body
+			fmt.Fprintf(&b, "printf '!! %%s\\n' %s\n\"$(bin %s)\" || echo TOOL-FAILED\n", shQuote(dl), shQuote(dl))
+		}
 	}
 	b.WriteString("} > \"$body\"\n")
 	// outputs
